@@ -61,3 +61,12 @@ CHECKS['C17'] = dict(
          'raising after every k chunks, NaN under allow_nan=False, and failing/partial k-th write, flush and close of the '
          'staging file; plus kill-at-k-then-rewrite histories. Destination must be absent / previous / complete new.',
     note='Kill = process kill (completed syscalls persist); staging dir on the destination file system; line granularity.')
+
+CHECKS['C15'] = dict(
+    engine='enum', level='model_checking', design_ref='DESIGN.md#c15',
+    technique='exhaustive device reply scripts vs handshake automaton + explicit-state BFS of stream histories vs session model',
+    text='Handshake: every device reply script over an 11/15-symbol alphabet (CNXN good/malformed, AUTH token/other, noise, corrupt '
+         'frame, silence) up to depth 4/5 with 0-2 signers is run on the real connect() and compared with a reference automaton '
+         '(exact host messages, connection fields or error category). Streams: BFS over open/close/remote-close/WRTE/illegal-packet/'
+         'read histories with the id limit patched to 4 (wrap-around inside the bound), each step compared with a session model.',
+    note='Single-threaded histories; virtual clock; BFS depth-capped (reported in evidence) unless the frontier empties.')
